@@ -56,6 +56,10 @@ pub fn run(ctx: &Ctx, rep: &mut Report, replay: Option<&serde_json::Value>) {
     ctx.shrink_iters.store(120, std::sync::atomic::Ordering::Relaxed);
     if let Some(v) = replay {
         let t: Tagged<Scenario> = serde_json::from_value(v.clone()).expect("replay");
+        if t.sub == "rrdp" {
+            run_case(ctx, rep, &t.sub, &t.case, prop_rrdp);
+            return;
+        }
         run_case(ctx, rep, &t.sub, &t.case, prop);
         return;
     }
@@ -64,4 +68,28 @@ pub fn run(ctx: &Ctx, rep: &mut Report, replay: Option<&serde_json::Value>) {
         let hp = hp.clone();
         move |w| history_run(&w, &hp)
     }), prop);
+    rep.rule("(rrdp) the same histories with every CA published through one of 2 RRDP repositories with chance 1/2 (deltas between runs carry the replayed / non-increasing manifests), notification failing with chance 3/16 per repository and run, rrdp-fallback in {stale, never, new}; oracle as above over the store path keyed by the CA's rpkiNotify URI; non-trivial = some step publishes a version not strictly newer than the previously published one for a CA published through RRDP, and that CA's repository was updated in some run");
+    let mut hp = profile();
+    hp.base.rrdp_16 = 8;
+    hp.fail_rrdp_16 = 3;
+    run_prop_par(ctx, rep, "rrdp", ctx.tier.pick(100, 2500), 8, || (genome(260), rrdp_genome()).prop_map({
+        let hp = hp.clone();
+        move |(w, r)| history_run_rrdp(&w, &r, &hp)
+    }), prop_rrdp);
+}
+
+fn prop_rrdp(sc: &Scenario, info: &mut CaseInfo) -> Verdict {
+    let j = Judge { id: "C05/rrdp", sound: true, complete: true, store: true, ..Default::default() };
+    let (v, seen) = judge_rrdp(&j, sc, info, |_, _| None);
+    let mut only_rrdp = sc.clone();
+    for ca in only_rrdp.cas.iter_mut() {
+        if ca.rrdp.is_none() {
+            ca.versions.truncate(1);
+        }
+    }
+    info.nontrivial = has_non_increasing_step(&only_rrdp) && seen.updated;
+    for c in history_classes(sc) {
+        info.class(c);
+    }
+    v
 }
